@@ -170,6 +170,24 @@ pub fn run(env: &Env) -> i32 {
         s.count("corpus_seed_cases");
         check_text("corpus", &seeds[i as usize], "corpus-seed", s)
     });
+    let fz = fuzz_inputs();
+    let mut fuzz_stats = json!({"status": "not run in this tier"});
+    if let Some(fz) = &fz {
+        fuzz_stats = fz.stats.clone();
+        enum_stream(env, &mut st, fz.inputs.len() as u64, |i, s| {
+            let (_, bytes) = &fz.inputs[i as usize];
+            match std::str::from_utf8(bytes) {
+                Ok(t) => {
+                    s.count("fuzz_inputs_replayed");
+                    check_text("fuzz-corpus", t, "fuzz-corpus", s)
+                }
+                Err(_) => {
+                    s.count("fuzz_inputs_not_utf8");
+                    vec![]
+                }
+            }
+        });
+    }
     let general = program::GenCfg { undecided: true, plant: 80, pragma_mode: 1, ..Default::default() };
     tape_stream(env, &mut st, "random", env.tier.n(12_000, 300_000), 1500, |tape, s| {
         let mut t = Tape::new(tape);
@@ -196,7 +214,7 @@ pub fn run(env: &Env) -> i32 {
             "inputs on which solang-parser itself errors or panics are not 'accepted' and are discarded (counted)".into(),
             format!("this run used build profile '{}' (the check script runs both 'checked' = overflow checks + debug assertions on, and 'release' = off)", env.profile),
         ],
-        extra: json!({"feature_cases": feats.len()}),
+        extra: json!({"feature_cases": feats.len(), "fuzz": fuzz_stats}),
         floors: vec![
             ("accepted files".into(), accepted, 1500),
             ("files without any pragma".into(), st.counters.get("files_without_pragma").copied().unwrap_or(0), 50),
